@@ -20,8 +20,7 @@ TRUSTED_BASE = [
 def codec_drivers(ctx):
     n = 400 if ctx.tier == "quick" else 6000
     return [{"name": "codecdiff", "cases": "codec.cases",
-             "cmd": [os.path.join(HB, "codecdiff"), "-seed", str(ctx.seed), "-n", str(n), "-out", "codec.cases"],
-             "props": ["C19", "log", "enc", "conf", "App", "Req", "Ins"]}]
+             "cmd": [os.path.join(HB, "codecdiff"), "-seed", str(ctx.seed), "-n", str(n), "-out", "codec.cases"]}]
 
 
 def disk_drivers(which, kinds, props):
